@@ -1,5 +1,5 @@
 (* C01 - lemmas: the reference decoder of Spec_Update reads back what Model_Attr / Model_Encode write. *)
-From Coq Require Import ZArith List Bool Lia Arith Permutation.
+From Coq Require Import ZArith List Bool Lia Arith Permutation Sorted.
 From ExaV Require Import lib.ListX gen.Gen_NlriRegistry model.Model_Nlri proofs.Proofs_Nlri model.Model_Attr
   model.Model_Encode spec.Spec_Nlri spec.Spec_Update.
 Import ListNotations.
@@ -331,6 +331,74 @@ Proof.
   rewrite seg_split_small by (unfold zlen in Hn; lia). reflexivity.
 Qed.
 
+(* ASPath._segment in general: ceil(n / 255) chunks of 1..255 ASNs whose concatenation is the segment *)
+Lemma seg_split_spec : forall fuel a, (length a <= fuel)%nat ->
+  concat (seg_split fuel a) = a
+  /\ Forall (fun c => (1 <= length c <= 255)%nat) (seg_split fuel a)
+  /\ length (seg_split fuel a) = ((length a + 254) / 255)%nat.
+Proof.
+  induction fuel as [|f IH]; intros a Hf.
+  - destruct a; [|cbn [length] in Hf; lia]. repeat split; constructor.
+  - cbn [seg_split]. destruct a as [|x a']; [repeat split; constructor|].
+    set (a := x :: a') in *.
+    destruct (255 <? length a)%nat eqn:E.
+    + apply Nat.ltb_lt in E.
+      assert (Hs : (length (skipn 255 a) <= f)%nat) by (rewrite skipn_length; lia).
+      destruct (IH (skipn 255 a) Hs) as [C [F L]].
+      cbn [concat length]. rewrite C, L, skipn_length. repeat split.
+      * apply firstn_skipn.
+      * constructor; [rewrite firstn_length; lia | exact F].
+      * replace (length a + 254)%nat with ((length a - 255 + 254) + 1 * 255)%nat by lia.
+        rewrite Nat.div_add by lia. lia.
+    + apply Nat.ltb_ge in E. assert (1 <= length a)%nat by (subst a; cbn [length]; lia).
+      cbn [concat length]. rewrite app_nil_r. split; [reflexivity|]. split.
+      * constructor; [lia | constructor].
+      * replace (length a + 254)%nat with ((length a - 1) + 1 * 255)%nat by lia.
+        rewrite Nat.div_add by lia. rewrite Nat.div_small by lia. reflexivity.
+Qed.
+
+(* a requested segment: a known type and 4-byte ASNs; any number of them (also none) *)
+Definition seg_in (sg : Z * list Z) : Prop := 1 <= fst sg <= 4 /\ Forall (fun v => 0 <= v < 4294967296) (snd sg).
+
+Lemma path_segments_ok p : Forall seg_in p -> Forall (seg_ok 4294967296) (path_segments p).
+Proof.
+  induction 1 as [|sg p Hsg Hp IH]; [constructor|]. unfold path_segments in *. cbn [flat_map].
+  apply Forall_app. split; [|exact IH].
+  destruct sg as [ty a]. destruct Hsg as [Hty Ha]. cbn [fst snd] in *.
+  destruct (seg_split_spec (length a) a (le_n _)) as [C [F _]].
+  apply Forall_forall. intros sg Hin. apply in_map_iff in Hin. destruct Hin as [c [Ec Hc]]. subst sg.
+  rewrite Forall_forall in F. specialize (F c Hc). unfold seg_ok. cbn [fst snd]. unfold zlen. repeat split; try lia.
+  apply Forall_forall. intros v Hv. rewrite Forall_forall in Ha. apply Ha. rewrite <- C. apply in_concat. exists c. split; assumption.
+Qed.
+
+Lemma existsb_flat_map {A B} (f : B -> bool) (g : A -> list B) l : existsb f (flat_map g l) = existsb (fun x => existsb f (g x)) l.
+Proof. induction l as [|x l IH]; [reflexivity|]. cbn [flat_map existsb]. rewrite existsb_app, IH. reflexivity. Qed.
+Lemma existsb_concat {A} (f : A -> bool) l : existsb (existsb f) l = existsb f (concat l).
+Proof. induction l as [|x l IH]; [reflexivity|]. cbn [concat existsb]. rewrite existsb_app, IH. reflexivity. Qed.
+Lemma existsb_map {A B} (f : B -> bool) (g : A -> B) l : existsb f (map g l) = existsb (fun x => f (g x)) l.
+Proof. induction l as [|x l IH]; [reflexivity|]. cbn [map existsb]. rewrite IH. reflexivity. Qed.
+
+Lemma existsb_ext' {A} (f g : A -> bool) l : (forall x, f x = g x) -> existsb f l = existsb g l.
+Proof. intro H. induction l as [|x l IH]; [reflexivity|]. cbn [existsb]. rewrite H, IH. reflexivity. Qed.
+
+(* an ASN above 65535 is in the stored path iff it is in the requested one *)
+Lemma has_large_split p : has_large (path_segments p) = has_large p.
+Proof.
+  unfold has_large, path_segments. rewrite existsb_flat_map. apply existsb_ext'. intros [ty a]. cbn [fst snd].
+  rewrite existsb_map. cbn [snd]. rewrite existsb_concat.
+  destruct (seg_split_spec (length a) a (le_n _)) as [C _]. rewrite C. reflexivity.
+Qed.
+
+(* the ASNs of the stored path, in order, are the requested ones *)
+Lemma flat_snd_chunks (ty : Z) (l : list (list Z)) : flat_map snd (map (fun c => (ty, c)) l) = concat l.
+Proof. induction l as [|c l IH]; [reflexivity|]. cbn [map flat_map snd concat]. rewrite IH. reflexivity. Qed.
+
+Lemma path_segments_flat p : flat_map snd (path_segments p) = flat_map snd p.
+Proof.
+  unfold path_segments. induction p as [|[ty a] p IH]; [reflexivity|]. cbn [flat_map fst snd]. rewrite flat_map_app, IH.
+  rewrite flat_snd_chunks. destruct (seg_split_spec (length a) a (le_n _)) as [C _]. rewrite C. reflexivity.
+Qed.
+
 Lemma trans_range v : 0 <= v < 4294967296 -> 0 <= trans v < 65536.
 Proof. unfold trans, AS_TRANS. destruct (65535 <? v) eqn:E; lia. Qed.
 
@@ -402,8 +470,9 @@ Definition item_ras (s : sess) (i : item) : list rattr :=
   match i with
   | IOrigin v => [RSem (SOrigin v)]
   | IAsPath segs =>
-    if s_asn4 s then [RSem (SAsPath segs)]
-    else RSem (SAsPath (trans_path segs)) :: (if has_large segs then [RAs4Path segs] else [])
+    if s_asn4 s then [RSem (SAsPath (path_segments segs))]
+    else RSem (SAsPath (trans_path (path_segments segs)))
+         :: (if has_large (path_segments segs) then [RAs4Path (path_segments segs)] else [])
   | INextHop ip => [RNextHop ip]
   | IMed v => [RSem (SMed v)]
   | ILocalPref v => [RSem (SLocalPref v)]
@@ -426,7 +495,7 @@ Definition in32 (v : Z) : Prop := 0 <= v < 4294967296.
 Definition wf_item (i : item) : Prop :=
   match i with
   | IOrigin v => 0 <= v <= 2
-  | IAsPath segs => Forall (seg_ok 4294967296) segs /\ zlen (pack_segs true segs) < 65536
+  | IAsPath segs => Forall seg_in segs /\ zlen (pack_segs true (path_segments segs)) < 65536
   | INextHop ip => zlen ip = 4
   | IMed v | ILocalPref v => in32 v
   | IAtomic => True
@@ -480,7 +549,8 @@ Proof.
   intro W. destruct i; cbn [wf_item item_tls item_ras] in *; rewrite ?opt_tl64.
   - (* ORIGIN *) split; [repeat constructor; cbn; lia|]. one_tl. rewrite interp_c1, eff64. cbn [Z.eqb Pos.eqb].
     destruct (v <=? 2) eqn:E; [reflexivity | lia].
-  - (* AS_PATH *) destruct W as [Wp Wl]. unfold stored_path. rewrite (path_segments_id _ _ Wp).
+  - (* AS_PATH *) destruct W as [Wp0 Wl]. unfold stored_path. pose proof (path_segments_ok _ Wp0) as Wp.
+    remember (path_segments segs) as st eqn:Est. clear Est Wp0 segs. rename st into segs.
     pose proof (trans_path_len segs) as Lt. pose proof (trans_path_ok _ Wp) as Wt.
     destruct (s_asn4 s) eqn:A4.
     + split; [repeat constructor; exact Wl|]. one_tl.
@@ -717,6 +787,32 @@ Qed.
 Lemma sort_items_perm l : Permutation (sort_items l) l.
 Proof. unfold sort_items. pose proof (sort_items_gen l []) as H. rewrite app_nil_r in H. exact H. Qed.
 
+(* ... and it is ascending by attribute code *)
+Definition code_le (a b : item) : Prop := code_of a <= code_of b.
+
+Lemma hdrel_ins x y r : HdRel code_le y r -> code_le y x -> HdRel code_le y (ins_item x r).
+Proof.
+  intros H Hx. destruct r as [|z r]; cbn [ins_item]; [constructor; exact Hx|].
+  destruct (code_of x <? code_of z); constructor; [exact Hx | inversion H; assumption].
+Qed.
+
+Lemma ins_item_sorted x l : Sorted code_le l -> Sorted code_le (ins_item x l).
+Proof.
+  induction 1 as [|y r Hr IH Hy]; cbn [ins_item]; [repeat constructor|].
+  destruct (code_of x <? code_of y) eqn:E.
+  - constructor; [constructor; assumption | constructor; unfold code_le; lia].
+  - constructor; [exact IH | apply hdrel_ins; [exact Hy | unfold code_le; lia]].
+Qed.
+
+Lemma sort_items_sorted_gen : forall l acc, Sorted code_le acc -> Sorted code_le (fold_left (fun a x => ins_item x a) l acc).
+Proof. induction l as [|x l IH]; intros acc H; cbn [fold_left]; [exact H|]. apply IH. apply ins_item_sorted. exact H. Qed.
+
+Lemma sort_items_sorted l : Sorted code_le (sort_items l).
+Proof. apply sort_items_sorted_gen. constructor. Qed.
+
+Lemma sent_items_sorted s items : Sorted code_le (sent_items s items).
+Proof. apply sort_items_sorted. Qed.
+
 Lemma perm_Forall {A} (P : A -> Prop) l l' : Permutation l l' -> Forall P l -> Forall P l'.
 Proof. intros Hp H. apply Forall_forall. intros x Hx. rewrite Forall_forall in H. apply H. apply Permutation_in with l'; [apply Permutation_sym; exact Hp | exact Hx]. Qed.
 
@@ -758,7 +854,7 @@ Definition opt_sa {A} (l : list A) (x : sattr) : list sattr := if is_nil l then 
 Definition sem_item (i : item) : list sattr :=
   match i with
   | IOrigin v => [SOrigin v]
-  | IAsPath segs => [SAsPath segs]
+  | IAsPath segs => [SAsPath (path_segments segs)]
   | INextHop _ => []
   | IMed v => [SMed v]
   | ILocalPref v => [SLocalPref v]
@@ -793,7 +889,7 @@ Lemma item_ras_small s i : small_item s i = true ->
 Proof.
   unfold small_item. intro H. destruct i; cbn [item_ras sem_item]; try (split; reflexivity);
     try (unfold opt_ra, opt_sa; destruct (is_nil _); split; reflexivity).
-  - destruct (s_asn4 s); [split; reflexivity|]. cbn [orb] in H. apply negb_true_iff in H. rewrite H.
+  - destruct (s_asn4 s); [split; reflexivity|]. cbn [orb] in H. apply negb_true_iff in H. rewrite <- has_large_split in H. rewrite H.
     rewrite (trans_path_small _ H). split; reflexivity.
   - destruct (s_asn4 s); [split; reflexivity|]. cbn [orb] in H. apply negb_true_iff in H. rewrite H. split; reflexivity.
 Qed.
@@ -806,12 +902,160 @@ Proof.
   rewrite forallb_app, flat_map_app, J1, I1, J2, I2. split; reflexivity.
 Qed.
 
+(* ------------------------------------------------------------------ RFC 6793 post-processing in general:
+   the attribute set is a dict (distinct codes), so AS4_PATH / AS4_AGGREGATOR belong to THE AS_PATH / AGGREGATOR *)
+
+Lemma leading_zero p : leading 0 p = [].
+Proof. destruct p; reflexivity. Qed.
+
+Lemma path_count_trans p : path_count (trans_path p) = path_count p.
+Proof.
+  induction p as [|[ty a] p IH]; [reflexivity|]. cbn [trans_path map path_count fold_right fst snd] in *.
+  fold (trans_path p). unfold path_count in IH. rewrite IH. unfold seg_count. cbn [fst snd].
+  unfold len. rewrite map_length. reflexivity.
+Qed.
+
+Lemma reconstruct_full p : reconstruct (trans_path p) (Some p) = p.
+Proof.
+  unfold reconstruct. rewrite path_count_trans, Z.ltb_irrefl, Z.sub_diag, leading_zero. reflexivity.
+Qed.
+
+Fixpoint first_some {A B} (f : A -> option B) (l : list A) : option B :=
+  match l with [] => None | x :: r => match f x with Some y => Some y | None => first_some f r end end.
+
+Lemma first_some_none {A B} (f : A -> option B) l : (forall j, In j l -> f j = None) -> first_some f l = None.
+Proof. induction l as [|x l IH]; intro H; [reflexivity|]. cbn [first_some]. rewrite (H x (or_introl eq_refl)). apply IH. intros j Hj. apply H. right. exact Hj. Qed.
+
+Lemma first_some_at {A B} (f : A -> option B) l i :
+  In i l -> (forall j, In j l -> f j <> None -> j = i) -> first_some f l = f i.
+Proof.
+  induction l as [|x l IH]; intros Hi Hu; [destruct Hi|]. cbn [first_some].
+  destruct (f x) as [y|] eqn:E.
+  - assert (x = i) by (apply Hu; [left; reflexivity | congruence]). subst x. symmetry. exact E.
+  - destruct Hi as [-> | Hi].
+    + rewrite E. apply first_some_none. intros j Hj. destruct (f j) eqn:Ej; [|reflexivity].
+      assert (j = i) by (apply Hu; [right; exact Hj | congruence]). subst j. congruence.
+    + apply IH; [exact Hi|]. intros j Hj Hne. apply Hu; [right; exact Hj | exact Hne].
+Qed.
+
+Lemma nodup_code_eq l i j : NoDup (map code_of l) -> In i l -> In j l -> code_of j = code_of i -> j = i.
+Proof.
+  induction l as [|x l IH]; intros Hn Hi Hj E; [destruct Hi|]. cbn [map] in Hn. inversion Hn as [|? ? Hx Hn']; subst.
+  destruct Hi as [-> | Hi], Hj as [-> | Hj]; try reflexivity.
+  - exfalso. apply Hx. rewrite <- E. apply in_map. exact Hj.
+  - exfalso. apply Hx. rewrite E. apply in_map. exact Hi.
+  - apply IH; assumption.
+Qed.
+
+Definition p4_of (s : sess) (i : item) : option (list segment) :=
+  match i with
+  | IAsPath segs => if s_asn4 s then None else if has_large (path_segments segs) then Some (path_segments segs) else None
+  | _ => None
+  end.
+Definition a4_of (s : sess) (i : item) : option (Z * list Z) :=
+  match i with
+  | IAggregator asn ip => if s_asn4 s then None else if 65535 <? asn then Some (asn, ip) else None
+  | _ => None
+  end.
+
+Lemma find_as4path_app a b : find_as4path (a ++ b) = match find_as4path a with Some p => Some p | None => find_as4path b end.
+Proof.
+  unfold find_as4path. induction a as [|x a IH]; [reflexivity|]. cbn [app filter].
+  destruct x; try exact IH. reflexivity.
+Qed.
+Lemma find_as4aggr_app a b : find_as4aggr (a ++ b) = match find_as4aggr a with Some p => Some p | None => find_as4aggr b end.
+Proof.
+  unfold find_as4aggr. induction a as [|x a IH]; [reflexivity|]. cbn [app filter].
+  destruct x; try exact IH. reflexivity.
+Qed.
+
+Lemma find_as4path_item s i : find_as4path (item_ras s i) = p4_of s i.
+Proof.
+  destruct i; cbn [item_ras p4_of]; try reflexivity; try (unfold opt_ra; destruct (is_nil _); reflexivity).
+  - destruct (s_asn4 s); [reflexivity|]. destruct (has_large _); reflexivity.
+  - destruct (s_asn4 s); [reflexivity|]. destruct (65535 <? asn); reflexivity.
+Qed.
+Lemma find_as4aggr_item s i : find_as4aggr (item_ras s i) = a4_of s i.
+Proof.
+  destruct i; cbn [item_ras a4_of]; try reflexivity; try (unfold opt_ra; destruct (is_nil _); reflexivity).
+  - destruct (s_asn4 s); [reflexivity|]. destruct (has_large _); reflexivity.
+  - destruct (s_asn4 s); [reflexivity|]. destruct (65535 <? asn); reflexivity.
+Qed.
+
+Lemma find_as4path_items s l : find_as4path (flat_map (item_ras s) l) = first_some (p4_of s) l.
+Proof. induction l as [|i l IH]; [reflexivity|]. cbn [flat_map first_some]. rewrite find_as4path_app, find_as4path_item, IH. reflexivity. Qed.
+Lemma find_as4aggr_items s l : find_as4aggr (flat_map (item_ras s) l) = first_some (a4_of s) l.
+Proof. induction l as [|i l IH]; [reflexivity|]. cbn [flat_map first_some]. rewrite find_as4aggr_app, find_as4aggr_item, IH. reflexivity. Qed.
+
+(* one element of merge_as4's flat_map, with the two look-ups as arguments *)
+Definition merge1 (asn4 : bool) (p4 : option (list segment)) (a4 : option (Z * list Z)) (a : rattr) : list sattr :=
+  match a with
+  | RSem (SAsPath p) => [SAsPath (if asn4 then p else reconstruct p p4)]
+  | RSem (SAggregator asn ip) =>
+    [match (if asn4 then None else a4) with
+     | Some (x4, i4) => if asn =? 23456 then SAggregator x4 i4 else SAggregator asn ip
+     | None => SAggregator asn ip end]
+  | RSem x => [x]
+  | _ => []
+  end.
+
+Lemma merge_as4_merge1 rs l : merge_as4 rs l = flat_map (merge1 (rs_asn4 rs) (find_as4path l) (find_as4aggr l)) l.
+Proof. reflexivity. Qed.
+
+Lemma merge1_item s its i :
+  NoDup (map code_of its) -> In i its ->
+  flat_map (merge1 (s_asn4 s) (first_some (p4_of s) its) (first_some (a4_of s) its)) (item_ras s i) = sem_item i.
+Proof.
+  intros Hn Hi.
+  destruct i; cbn [item_ras sem_item]; try reflexivity; try (unfold opt_ra, opt_sa; destruct (is_nil _); reflexivity).
+  - (* AS_PATH *)
+    assert (P : first_some (p4_of s) its = p4_of s (IAsPath segs)).
+    { apply first_some_at; [exact Hi|]. intros j Hj Hne. apply (nodup_code_eq its _ _ Hn Hi Hj).
+      destruct j; cbn [p4_of] in Hne; try congruence. reflexivity. }
+    rewrite P. cbn [p4_of]. destruct (s_asn4 s) eqn:A4; [reflexivity|].
+    destruct (has_large (path_segments segs)) eqn:HL; cbn [flat_map merge1 app].
+    + rewrite reconstruct_full. reflexivity.
+    + cbn [reconstruct]. rewrite (trans_path_small _ HL). reflexivity.
+  - (* AGGREGATOR *)
+    assert (P : first_some (a4_of s) its = a4_of s (IAggregator asn ip)).
+    { apply first_some_at; [exact Hi|]. intros j Hj Hne. apply (nodup_code_eq its _ _ Hn Hi Hj).
+      destruct j; cbn [a4_of] in Hne; try congruence. reflexivity. }
+    rewrite P. cbn [a4_of]. destruct (s_asn4 s) eqn:A4; [reflexivity|].
+    destruct (65535 <? asn) eqn:E; cbn [flat_map merge1 app]; reflexivity.
+Qed.
+
+Lemma merge_items s ext its : NoDup (map code_of its) ->
+  merge_as4 (rs_of s ext) (flat_map (item_ras s) its) = flat_map sem_item its.
+Proof.
+  intro Hn. rewrite merge_as4_merge1, find_as4path_items, find_as4aggr_items. cbn [rs_of rs_asn4].
+  assert (G : forall l, incl l its ->
+            flat_map (merge1 (s_asn4 s) (first_some (p4_of s) its) (first_some (a4_of s) its)) (flat_map (item_ras s) l)
+            = flat_map sem_item l).
+  { induction l as [|i l IH]; intro Hinc; [reflexivity|]. cbn [flat_map]. rewrite flat_map_app.
+    rewrite (merge1_item s its i Hn (Hinc i (or_introl eq_refl))). rewrite IH; [reflexivity|].
+    intros j Hj. apply Hinc. right. exact Hj. }
+  apply G. apply incl_refl.
+Qed.
+
+(* an MP attribute next to the others changes nothing in that post-processing *)
+Lemma merge_mp_back rs l a f nh rl : merge_as4 rs (l ++ [RReach a f nh rl]) = merge_as4 rs l.
+Proof.
+  rewrite !merge_as4_merge1, find_as4path_app, find_as4aggr_app.
+  change (find_as4path [RReach a f nh rl]) with (@None (list segment)).
+  change (find_as4aggr [RReach a f nh rl]) with (@None (Z * list Z)).
+  replace (match find_as4path l with Some p => Some p | None => None end) with (find_as4path l) by (destruct (find_as4path l); reflexivity).
+  replace (match find_as4aggr l with Some p => Some p | None => None end) with (find_as4aggr l) by (destruct (find_as4aggr l); reflexivity).
+  rewrite flat_map_app. cbn [flat_map merge1]. rewrite app_nil_r. reflexivity.
+Qed.
+Lemma merge_mp_front rs l a f rl : merge_as4 rs (RUnreach a f rl :: l) = merge_as4 rs l.
+Proof. reflexivity. Qed.
+
 (* no MP attribute and only the written next hop among the attribute items *)
 Definition ras_mp (a : rattr) : bool := match a with RReach _ _ _ _ | RUnreach _ _ _ => true | _ => false end.
 Lemma item_ras_no_mp s i : forallb (fun a => negb (ras_mp a)) (item_ras s i) = true.
 Proof.
   destruct i; cbn [item_ras]; try reflexivity; try (unfold opt_ra; destruct (is_nil _); reflexivity).
-  - destruct (s_asn4 s); [reflexivity|]. destruct (has_large segs); reflexivity.
+  - destruct (s_asn4 s); [reflexivity|]. destruct (has_large _); reflexivity.
   - destruct (s_asn4 s); [reflexivity|]. destruct (65535 <? asn); reflexivity.
 Qed.
 Lemma items_ras_no_mp s l : forallb (fun a => negb (ras_mp a)) (flat_map (item_ras s) l) = true.
@@ -837,7 +1081,7 @@ Qed.
 Lemma item_ras_nh s i : flat_map ras_nh (item_ras s i) = nh_of i.
 Proof.
   destruct i; cbn [item_ras nh_of]; try reflexivity; try (unfold opt_ra; destruct (is_nil _); reflexivity).
-  - destruct (s_asn4 s); [reflexivity|]. destruct (has_large segs); reflexivity.
+  - destruct (s_asn4 s); [reflexivity|]. destruct (has_large _); reflexivity.
   - destruct (s_asn4 s); [reflexivity|]. destruct (65535 <? asn); reflexivity.
 Qed.
 Lemma items_ras_nh s l : flat_map ras_nh (flat_map (item_ras s) l) = flat_map nh_of l.
@@ -935,6 +1179,62 @@ Proof.
         destruct (ibgp s); [apply orb_true_r|]. apply orb_true_iff. right. unfold has_large. cbn [existsb snd].
         assert (E : (65535 <? s_las s) = false) by (apply Z.ltb_ge; lia). rewrite E. reflexivity.
       * destruct (has_code 5 items); [destruct Hi|]. destruct (ibgp s); [|destruct Hi]. destruct Hi as [<- | []]. apply orb_true_r.
+Qed.
+
+(* the attribute set is a dict: distinct codes; that survives defaults, skip and sort *)
+Definition dict_route (s : sess) (items : list item) : Prop := small_route s items \/ NoDup (map code_of items).
+
+Lemma has_code_in c l : has_code c l = false -> ~ In c (map code_of l).
+Proof.
+  unfold has_code. intros H Hin. apply in_map_iff in Hin. destruct Hin as [i [E Hi]].
+  assert (X : existsb (fun i => code_of i =? c) l = true) by (apply existsb_exists; exists i; split; [exact Hi | apply Z.eqb_eq; exact E]).
+  congruence.
+Qed.
+
+Lemma in_map_filter {A B} (g : A -> B) f l x : In x (map g (filter f l)) -> In x (map g l).
+Proof. intro H. apply in_map_iff in H. destruct H as [y [E Hy]]. apply filter_In in Hy. apply in_map_iff. exists y. tauto. Qed.
+
+Lemma nodup_map_filter {A B} (g : A -> B) f l : NoDup (map g l) -> NoDup (map g (filter f l)).
+Proof.
+  induction l as [|a l IH]; intro H; [constructor|]. cbn [map] in H. inversion H as [|? ? Ha Hl]; subst. cbn [filter].
+  destruct (f a); [|apply IH; exact Hl]. cbn [map]. constructor; [|apply IH; exact Hl].
+  intro Hin. apply Ha. apply (in_map_filter g f l _ Hin).
+Qed.
+
+Lemma nodup_app {A} (a b : list A) : NoDup a -> NoDup b -> (forall x, In x a -> ~ In x b) -> NoDup (a ++ b).
+Proof.
+  induction a as [|x a IH]; intros Ha Hb Hd; [exact Hb|]. inversion Ha as [|? ? Hx Ha']; subst. cbn [app]. constructor.
+  - intro Hin. apply in_app_or in Hin. destruct Hin as [Hin | Hin]; [exact (Hx Hin) | exact (Hd x (or_introl eq_refl) Hin)].
+  - apply IH; [exact Ha' | exact Hb |]. intros y Hy. apply Hd. right. exact Hy.
+Qed.
+
+Lemma defaults_codes s items :
+  NoDup (map code_of (defaults s items))
+  /\ forall c, In c (map code_of (defaults s items)) -> c <> 3 /\ has_code c items = false.
+Proof.
+  unfold defaults.
+  destruct (has_code 1 items) eqn:E1, (has_code 2 items) eqn:E2, (has_code 5 items) eqn:E5, (ibgp s);
+    cbn [app map code_of]; (split; [repeat constructor; cbn [In]; intuition discriminate |]);
+    intros c Hc; cbn [In] in Hc; intuition (subst; try discriminate; try assumption).
+Qed.
+
+Lemma sent_nodup s nh items : no_nh items -> NoDup (map code_of items) ->
+  NoDup (map code_of (sent_items s (INextHop nh :: items))).
+Proof.
+  intros Hn Hd.
+  apply (Permutation_NoDup (Permutation_sym (Permutation_map code_of (sent_perm s nh items Hn)))).
+  destruct (defaults_codes s items) as [Dn Dc].
+  assert (N3 : ~ In 3 (map code_of items)).
+  { intro Hin. apply in_map_iff in Hin. destruct Hin as [i [E Hi]]. unfold no_nh in Hn. rewrite Forall_forall in Hn. exact (Hn i Hi E). }
+  rewrite map_app. unfold expected_items. rewrite map_app.
+  apply nodup_app.
+  - unfold kept_nh. destruct (length nh =? 4)%nat; repeat constructor. intros [].
+  - apply nodup_app; [apply nodup_map_filter; exact Hd | exact Dn |].
+    intros x Hx Hx2. apply in_map_filter in Hx. destruct (Dc x Hx2) as [_ Hc]. exact (has_code_in x items Hc Hx).
+  - intros x Hx Hin. unfold kept_nh in Hx. destruct (length nh =? 4)%nat; [|destruct Hx]. destruct Hx as [<- | []]. cbn [code_of] in Hin.
+    apply in_app_or in Hin. destruct Hin as [Hin | Hin].
+    + apply in_map_filter in Hin. exact (N3 Hin).
+    + destruct (Dc 3 Hin) as [H3 _]. exact (H3 eq_refl).
 Qed.
 
 Lemma perm_singleton {A} (x : A) l : Permutation l [x] -> l = [x].
@@ -1116,34 +1416,37 @@ Record wf_route (ext : Z -> Z -> bool) (s : sess) (r : route) : Prop := mkWR {
   wr_las : wf_defaults s;
   wr_msg : s_msg s <= 65535;
   wr_nh : nh_fits ext (r_nlri r) (resolve s (n_afi (r_nlri r)) (r_nh r));
-  wr_small : small_route s (r_items r)
+  wr_small : dict_route s (r_items r)
 }.
 
 (* the attribute part shared by both shapes of the message *)
 Lemma attrs_decode s ext nh items :
-  Forall wf_item items -> no_nh items -> wf_defaults s -> small_route s items ->
+  Forall wf_item items -> no_nh items -> wf_defaults s -> dict_route s items ->
   let its := sent_items s (INextHop nh :: items) in
   let tls := flat_map (item_tls s) its in
   let ras := flat_map (item_ras s) its in
   pack_attrs s true (INextHop nh :: items) = flat_map emit tls
   /\ Forall tl_ok tls
   /\ interp_all (rs_of s ext) (map seen tls) = Some ras
-  /\ forallb no_as4 ras = true
-  /\ Permutation (flat_map sem_of ras) (flat_map sem_item (expected_items s items))
+  /\ merge_as4 (rs_of s ext) ras = flat_map sem_item its
+  /\ Permutation (flat_map sem_item its) (flat_map sem_item (expected_items s items))
   /\ forallb (fun a => negb (ras_mp a)) ras = true
   /\ ((length nh =? 4)%nat = true -> find_nexthop ras = Some nh).
 Proof.
   intros Wi Wn Wd Ws its tls ras.
   pose proof (sent_wf s nh items Wn Wi Wd) as Wsent.
-  pose proof (sent_small s nh items Wn Ws) as Ssm.
   destruct (interp_items s ext its Wsent) as [Tok Tint].
-  destruct (items_ras_small s its Ssm) as [Rno Rsem].
+  assert (Rmerge : merge_as4 (rs_of s ext) ras = flat_map sem_item its).
+  { destruct Ws as [Ws | Ws].
+    - pose proof (sent_small s nh items Wn Ws) as Ssm. destruct (items_ras_small s its Ssm) as [Rno Rsem].
+      subst ras. rewrite (merge_plain _ _ Rno). exact Rsem.
+    - apply merge_items. apply sent_nodup; assumption. }
   repeat split.
   - unfold pack_attrs. apply pack_items_tls.
   - exact Tok.
   - exact Tint.
-  - exact Rno.
-  - subst ras. rewrite Rsem. apply sent_sem. exact Wn.
+  - exact Rmerge.
+  - apply sent_sem. exact Wn.
   - apply items_ras_no_mp.
   - intro H4. rewrite find_nexthop_hd. subst ras its. rewrite items_ras_nh, (sent_nh s nh items Wn H4). reflexivity.
 Qed.
@@ -1175,7 +1478,8 @@ Theorem announce_decodes mc v4m ext s r body :
     /\ u_withdrawn u = []
     /\ u_announced u = [((n_afi (r_nlri r), n_safi (r_nlri r)), sem_nlri (send_pid s (r_nlri r)) false (r_nlri r),
                          resolve s (n_afi (r_nlri r)) (r_nh r))]
-    /\ Permutation (u_attrs u) (flat_map sem_item (expected_items s (r_items r))).
+    /\ Permutation (u_attrs u) (flat_map sem_item (expected_items s (r_items r)))
+    /\ u_attrs u = flat_map sem_item (sent_items s (items_of s r)).
 Proof.
   intros [Wn Wi Wno Wd Wm Wnh Ws] Hmc Henc.
   unfold encode_announce in Henc. unfold items_of in Henc.
@@ -1205,7 +1509,7 @@ Proof.
     eexists. split; [reflexivity|]. cbn [u_withdrawn u_announced u_attrs map app].
     split; [exact Runreach|]. split.
     + rewrite Eafi, Esafi. apply (f_equal2 cons); [reflexivity | exact Rreach].
-    + rewrite (merge_plain _ _ Rno). exact Rperm.
+    + rewrite Rno. split; [exact Rperm | reflexivity].
   - (* MP_REACH_NLRI *)
     fold (reach_payload n nh (pack_nlri (send_pid s n) n)) in Henc.
     set (payload := reach_payload n nh (pack_nlri (send_pid s n) n)) in *.
@@ -1230,9 +1534,7 @@ Proof.
     rewrite !flat_map_app. cbn [flat_map map app]. rewrite !app_nil_r. split; [|split].
     + exact Runreach.
     + apply (f_equal (fun l => l ++ [(n_afi n, n_safi n, sem_nlri (send_pid s n) false n, nh)]) Rreach).
-    + rewrite merge_plain.
-      * rewrite flat_map_app. cbn [flat_map sem_of]. rewrite app_nil_r. exact Rperm.
-      * rewrite forallb_app, Rno. reflexivity.
+    + rewrite merge_mp_back, Rno. split; [exact Rperm | reflexivity].
 Qed.
 (* ------------------------------------------------------------------ the UPDATE of one withdrawn route *)
 
@@ -1241,13 +1543,15 @@ Proof. reflexivity. Qed.
 
 Theorem withdraw_decodes mc ext s r body :
   wf_nlri true (r_nlri r) -> Forall wf_item (r_items r) -> no_nh (r_items r) -> wf_defaults s -> s_msg s <= 65535 ->
-  small_route s (r_items r) ->
+  dict_route s (r_items r) ->
   (mc = false \/ ~ (n_afi (r_nlri r) = 1 /\ n_safi (r_nlri r) = 2)) ->
   encode_withdraw mc s (r_nlri r) (items_of s r) = Some body ->
   exists u, ref_decode (rs_of s ext) body = Some u
     /\ u_withdrawn u = [((n_afi (r_nlri r), n_safi (r_nlri r)), sem_nlri (send_pid s (r_nlri r)) true (r_nlri r))]
     /\ u_announced u = []
-    /\ (n_safi (r_nlri r) = 1 \/ n_safi (r_nlri r) = 2 -> u_attrs u = []).
+    /\ (n_safi (r_nlri r) = 1 \/ n_safi (r_nlri r) = 2 -> u_attrs u = [])
+    /\ (n_safi (r_nlri r) = 4 \/ n_safi (r_nlri r) = 128 ->
+        Permutation (u_attrs u) (flat_map sem_item (expected_items s (r_items r)))).
 Proof.
   intros Wn Wi Wno Wd Wm Ws Hmc Henc.
   unfold encode_withdraw in Henc. unfold items_of in Henc.
@@ -1270,18 +1574,19 @@ Proof.
     assert (Esp : s_ap s 1 1 = send_pid s n) by (unfold send_pid; rewrite Eafi, Esafi; reflexivity).
     change (rs_addpath (rs_of s ext) 1 1) with (s_ap s 1 1). rewrite Esp, HN.
     cbn [interp_all]. eexists. split; [reflexivity|]. cbn [u_withdrawn u_announced u_attrs map app flat_map merge_as4].
-    rewrite Eafi, Esafi. repeat split.
+    rewrite Eafi, Esafi. repeat split. intros [E | E]; discriminate E.
   - (* MP_UNREACH_NLRI *)
     fold (unreach_payload n (pack_nlri (send_pid s n) n)) in Henc.
     set (payload := unreach_payload n (pack_nlri (send_pid s n) n)) in *.
     set (wdf := negb ((n_safi n =? 1) || (n_safi n =? 2))) in *.
     assert (Hparts : exists tls' ras', pack_attrs s wdf (INextHop nh :: r_items r) = flat_map emit tls' /\ Forall tl_ok tls'
               /\ interp_all (rs_of s ext) (map seen tls') = Some ras'
-              /\ forallb (fun a => negb (ras_mp a)) ras' = true /\ (wdf = false -> ras' = [])).
+              /\ forallb (fun a => negb (ras_mp a)) ras' = true /\ (wdf = false -> ras' = [])
+              /\ (wdf = true -> Permutation (merge_as4 (rs_of s ext) ras') (flat_map sem_item (expected_items s (r_items r))))).
     { destruct wdf.
-      - exists tls, ras. repeat split; try assumption. discriminate.
-      - exists [], []. repeat split; constructor. }
-    destruct Hparts as [tls' [ras' [Eattr' [Tok' [Tint' [Rmp' Rnil]]]]]].
+      - exists tls, ras. repeat split; try assumption; try discriminate. intros _. rewrite Rno. exact Rperm.
+      - exists [], []. repeat split; try constructor. discriminate. }
+    destruct Hparts as [tls' [ras' [Eattr' [Tok' [Tint' [Rmp' [Rnil Rfull]]]]]]].
     set (attr := pack_attrs s wdf (INextHop nh :: r_items r)) in *. pose proof (zlen_nonneg attr) as Ha0.
     destruct (s_msg s - 19 - 2 - 2 - zlen attr <=? 0) eqn:Eroom; [discriminate|]. apply Z.leb_gt in Eroom.
     destruct (s_msg s - 19 - 2 - 2 - zlen attr <? mp_attr_len (zlen payload)) eqn:Efit; [discriminate|]. apply Z.ltb_ge in Efit.
@@ -1302,39 +1607,27 @@ Proof.
     rewrite !app_nil_r in HT. rewrite (HT (le_n _)). clear HT.
     cbn [map interp_all]. subst payload. rewrite (interp_unreach s ext n Wn). rewrite Tint'.
     destruct (no_mp_reach ras' Rmp') as [Rreach Runreach]. unfold reach_of in Rreach. unfold unreach_of in Runreach.
-    eexists. split; [reflexivity|]. cbn [u_withdrawn u_announced u_attrs map app flat_map]. split; [|split].
+    eexists. split; [reflexivity|]. cbn [u_withdrawn u_announced u_attrs map app flat_map]. split; [|split; [|split]].
     + apply (f_equal (fun l => [(n_afi n, n_safi n, sem_nlri (send_pid s n) true n)] ++ l) Runreach).
     + exact Rreach.
     + intro Hs. assert (Ew : wdf = false).
       { subst wdf. destruct Hs as [E | E]; rewrite E; reflexivity. }
       rewrite (Rnil Ew). reflexivity.
+    + intro Hs. assert (Ew : wdf = true).
+      { subst wdf. destruct Hs as [E | E]; rewrite E; reflexivity. }
+      rewrite merge_mp_front. exact (Rfull Ew).
 Qed.
 (* ------------------------------------------------------------------ RFC 6793: AS_TRANS + AS4_PATH to a 2-byte peer *)
 
-Lemma leading_zero p : leading 0 p = [].
-Proof. destruct p; reflexivity. Qed.
-
-Lemma path_count_trans p : path_count (trans_path p) = path_count p.
-Proof.
-  induction p as [|[ty a] p IH]; [reflexivity|]. cbn [trans_path map path_count fold_right fst snd] in *.
-  fold (trans_path p). unfold path_count in IH. rewrite IH. unfold seg_count. cbn [fst snd].
-  unfold len. rewrite map_length. reflexivity.
-Qed.
-
-Lemma reconstruct_full p : reconstruct (trans_path p) (Some p) = p.
-Proof.
-  unfold reconstruct. rewrite path_count_trans, Z.ltb_irrefl, Z.sub_diag, leading_zero. reflexivity.
-Qed.
-
 Theorem as4_pair s ext segs :
-  s_asn4 s = false -> Forall (seg_ok 4294967296) segs -> zlen (pack_segs true segs) < 65536 ->
+  s_asn4 s = false -> Forall seg_in segs -> zlen (pack_segs true (path_segments segs)) < 65536 ->
   exists ts ras,
     tlvs (length (pack_item s (IAsPath segs))) (pack_item s (IAsPath segs)) = Some ts
     /\ interp_all (rs_of s ext) ts = Some ras
-    /\ find_aspath ras = Some (trans_path segs)
-    /\ Forall (seg_ok 65536) (trans_path segs)
-    /\ find_as4path ras = (if has_large segs then Some segs else None)
-    /\ merge_as4 (rs_of s ext) ras = [SAsPath segs].
+    /\ find_aspath ras = Some (trans_path (path_segments segs))
+    /\ Forall (seg_ok 65536) (trans_path (path_segments segs))
+    /\ find_as4path ras = (if has_large segs then Some (path_segments segs) else None)
+    /\ merge_as4 (rs_of s ext) ras = [SAsPath (path_segments segs)].
 Proof.
   intros A4 Wp Wl.
   destruct (interp_item s ext (IAsPath segs) (conj Wp Wl)) as [Tok Tint].
@@ -1343,14 +1636,12 @@ Proof.
   rewrite !app_nil_r in HT.
   exists (map seen (item_tls s (IAsPath segs))), (item_ras s (IAsPath segs)).
   split; [apply HT; apply le_n|]. split; [exact Tint|].
-  cbn [item_ras]. rewrite A4. split; [reflexivity|]. split; [apply trans_path_ok; exact Wp|].
-  destruct (has_large segs) eqn:HL.
-  - split; [reflexivity|]. unfold merge_as4. cbn [flat_map app rs_of rs_asn4]. rewrite A4.
-    change (find_as4path [RSem (SAsPath (trans_path segs)); RAs4Path segs]) with (Some segs).
-    rewrite reconstruct_full. reflexivity.
-  - split; [reflexivity|]. unfold merge_as4. cbn [flat_map app rs_of rs_asn4]. rewrite A4.
-    change (find_as4path [RSem (SAsPath (trans_path segs))]) with (@None (list segment)).
-    cbn [reconstruct]. rewrite (trans_path_small _ HL). reflexivity.
+  pose proof (merge_items s ext [IAsPath segs] ltac:(repeat constructor; intros [])) as HM.
+  cbn [flat_map] in HM. rewrite !app_nil_r in HM.
+  rewrite <- has_large_split.
+  cbn [item_ras] in *. rewrite A4 in *. split; [reflexivity|]. split; [apply trans_path_ok; apply path_segments_ok; exact Wp|].
+  split; [|exact HM].
+  destruct (has_large (path_segments segs)); reflexivity.
 Qed.
 
 (* ------------------------------------------------------------------ flags of a generic attribute *)
@@ -1379,7 +1670,7 @@ Proof.
   - unfold wf_defaults, in32. cbn. lia.
   - cbn. lia.
   - left. split; reflexivity.
-  - left. reflexivity.
+  - left. left. reflexivity.
 Qed.
 
 Lemma multicast_refuted :
@@ -1407,7 +1698,7 @@ Proof.
     + unfold wf_defaults, in32. cbn. lia.
     + cbn. lia.
     + right. split; [reflexivity | left; reflexivity].
-    + left. reflexivity.
+    + left. left. reflexivity.
   - eexists. split; [vm_compute; reflexivity | reflexivity].
 Qed.
 (* ------------------------------------------------------------------ ADD-PATH *)
@@ -1444,5 +1735,181 @@ Theorem announce_decodes' mc v4m ext s r body :
     /\ u_withdrawn u = []
     /\ u_announced u = [((n_afi (r_nlri r), n_safi (r_nlri r)), sem_nlri (send_pid s (r_nlri r)) false (r_nlri r),
                          resolve s (n_afi (r_nlri r)) (r_nh r))]
-    /\ Permutation (u_attrs u) (expected_attrs s (r_items r)).
+    /\ Permutation (u_attrs u) (expected_attrs s (r_items r))
+    /\ u_attrs u = flat_map sem_item (sent_items s (items_of s r)).
 Proof. intros. rewrite expected_attrs_eq. eapply announce_decodes; eassumption. Qed.
+
+(* non-vacuity of the dict branch: 4-byte ASNs (path, aggregator, local AS) to a 2-byte eBGP peer *)
+Definition ex2_sess : sess := mkS 70000 65002 false (fun _ _ => false) 4096 [10;9;8;7] [].
+Definition ex2_route : route :=
+  mkRt (mkN 1 1 None [] [] 24 [10;0;0]) NhSelf
+       [IAsPath [(2, [70000; 65010; 4200000000])]; IAggregator 4200000000 [1;1;1;1]; ILocalPref 200].
+
+Lemma ex2_route_ok :
+  wf_route (fun _ _ => false) ex2_sess ex2_route
+  /\ ~ small_route ex2_sess (r_items ex2_route)
+  /\ exists body, encode_announce false false ex2_sess ex2_route = Some body /\ zlen body = 67.
+Proof.
+  split; [|split].
+  - constructor.
+    + constructor; cbn; try tauto; try lia; try reflexivity.
+    + repeat constructor; cbn; unfold in32; lia.
+    + repeat constructor; discriminate.
+    + unfold wf_defaults, in32. cbn. lia.
+    + cbn. lia.
+    + left. split; reflexivity.
+    + right. cbn. repeat constructor; cbn; intuition discriminate.
+  - intros [H | [H _]]; discriminate H.
+  - eexists. split; [vm_compute; reflexivity | reflexivity].
+Qed.
+
+(* ------------------------------------------------------------------ the message fits the negotiated size *)
+
+Lemma prefix16_len b : zlen (prefix16 b) = 2 + zlen b.
+Proof. unfold prefix16. rewrite zlen_app. reflexivity. Qed.
+
+Theorem announce_fits mc v4m s r body : encode_announce mc v4m s r = Some body -> 19 + zlen body <= s_msg s.
+Proof.
+  unfold encode_announce. intro H.
+  set (attr := pack_attrs s true (items_of s r)) in *.
+  destruct (s_msg s - 19 - 2 - 2 - zlen attr <=? 0) eqn:Eroom; [discriminate|].
+  destruct (plain_family mc (r_nlri r) && _).
+  - destruct (zlen _ <=? _) eqn:E; [|discriminate]. apply Z.leb_le in E. apply (f_equal (fun o => match o with Some b => zlen b | None => 0 end)) in H; cbv beta iota in H; rewrite <- H.
+    rewrite !zlen_app, !prefix16_len, zlen_nil. lia.
+  - match type of H with context [mp_attr_len (zlen ?p)] => set (payload := p) in * end.
+    destruct (_ <? mp_attr_len (zlen payload)) eqn:E; [discriminate|]. apply Z.ltb_ge in E. apply (f_equal (fun o => match o with Some b => zlen b | None => 0 end)) in H; cbv beta iota in H; rewrite <- H.
+    rewrite zlen_app, !prefix16_len, zlen_nil, zlen_app, mp_len. lia.
+Qed.
+
+Theorem withdraw_fits mc s n items body : encode_withdraw mc s n items = Some body -> 19 + zlen body <= s_msg s.
+Proof.
+  unfold encode_withdraw. intro H.
+  destruct (plain_family mc n).
+  - set (attr := pack_attrs s true items) in *. pose proof (zlen_nonneg attr).
+    destruct (_ <=? 0) eqn:Eroom; [discriminate|].
+    destruct (zlen _ <=? _) eqn:E; [|discriminate]. apply Z.leb_le in E. apply (f_equal (fun o => match o with Some b => zlen b | None => 0 end)) in H; cbv beta iota in H; rewrite <- H.
+    rewrite zlen_app, !prefix16_len, zlen_nil. lia.
+  - match type of H with context [pack_attrs s ?w items] => set (attr := pack_attrs s w items) in * end.
+    destruct (_ <=? 0) eqn:Eroom; [discriminate|].
+    match type of H with context [mp_attr_len (zlen ?p)] => set (payload := p) in * end.
+    destruct (_ <? mp_attr_len (zlen payload)) eqn:E; [discriminate|]. apply Z.ltb_ge in E. apply (f_equal (fun o => match o with Some b => zlen b | None => 0 end)) in H; cbv beta iota in H; rewrite <- H.
+    rewrite zlen_app, !prefix16_len, zlen_nil, app_assoc, zlen_app, mp_len. lia.
+Qed.
+
+(* ------------------------------------------------------------------ the order in which the attributes were written does not matter *)
+
+Lemma code_le_trans : Relations_1.Transitive code_le.
+Proof. intros a b c. unfold code_le. lia. Qed.
+
+Lemma sorted_perm_unique : forall l l', Sorted code_le l -> Sorted code_le l' -> Permutation l l' ->
+  NoDup (map code_of l) -> l = l'.
+Proof.
+  induction l as [|x t IH]; intros l' Hs Hs' Hp Hn.
+  - apply Permutation_nil in Hp. symmetry. exact Hp.
+  - destruct l' as [|y t']; [apply Permutation_sym, Permutation_nil in Hp; discriminate|].
+    assert (Exy : x = y).
+    { pose proof (Sorted_StronglySorted code_le_trans Hs) as SS. pose proof (Sorted_StronglySorted code_le_trans Hs') as SS'.
+      inversion SS as [|? ? _ Fx]; subst. inversion SS' as [|? ? _ Fy]; subst.
+      assert (Hx : In x (y :: t')) by (apply (Permutation_in _ Hp); left; reflexivity).
+      assert (Hy : In y (x :: t)) by (apply (Permutation_in _ (Permutation_sym Hp)); left; reflexivity).
+      destruct Hx as [-> | Hx]; [reflexivity|]. destruct Hy as [-> | Hy]; [reflexivity|].
+      rewrite Forall_forall in Fx, Fy. pose proof (Fx y Hy) as L1. pose proof (Fy x Hx) as L2. unfold code_le in *.
+      symmetry. apply (nodup_code_eq (x :: t) x y Hn); [left; reflexivity | right; exact Hy | lia]. }
+    subst y. f_equal. apply IH.
+    + inversion Hs; assumption.
+    + inversion Hs'; assumption.
+    + apply (Permutation_cons_inv Hp).
+    + cbn [map] in Hn. inversion Hn; assumption.
+Qed.
+
+Lemma sort_items_perm_eq a b : Permutation a b -> NoDup (map code_of a) -> sort_items a = sort_items b.
+Proof.
+  intros Hp Hn. apply sorted_perm_unique; try apply sort_items_sorted.
+  - eapply perm_trans; [apply sort_items_perm|]. eapply perm_trans; [exact Hp|]. apply Permutation_sym, sort_items_perm.
+  - apply (Permutation_NoDup (Permutation_sym (Permutation_map code_of (sort_items_perm a)))). exact Hn.
+Qed.
+
+Lemma existsb_perm {A} (f : A -> bool) l l' : Permutation l l' -> existsb f l = existsb f l'.
+Proof.
+  induction 1 as [| x l l' _ IH | x y l | l l' l'' _ IH1 _ IH2]; cbn [existsb]; try reflexivity.
+  - rewrite IH. reflexivity.
+  - destruct (f x), (f y); reflexivity.
+  - rewrite IH1. exact IH2.
+Qed.
+
+Lemma filter_perm {A} (f : A -> bool) l l' : Permutation l l' -> Permutation (filter f l) (filter f l').
+Proof.
+  induction 1 as [| x l l' _ IH | x y l | l l' l'' _ IH1 _ IH2]; cbn [filter].
+  - constructor.
+  - destruct (f x); [apply perm_skip|]; exact IH.
+  - destruct (f x), (f y); try apply Permutation_refl. apply perm_swap.
+  - eapply perm_trans; eassumption.
+Qed.
+
+Lemma defaults_perm s l l' : Permutation l l' -> defaults s l = defaults s l'.
+Proof. intro H. unfold defaults, has_code. rewrite !(existsb_perm _ l l' H). reflexivity. Qed.
+
+Lemma all_items_nodup s items : NoDup (map code_of items) -> NoDup (map code_of (items ++ defaults s items)).
+Proof.
+  intro Hn. destruct (defaults_codes s items) as [Dn Dc]. rewrite map_app. apply nodup_app; [exact Hn | exact Dn |].
+  intros x Hx Hx2. destruct (Dc x Hx2) as [_ Hc]. exact (has_code_in x items Hc Hx).
+Qed.
+
+Theorem attrs_order_independent s items items' :
+  Permutation items items' -> NoDup (map code_of items) -> pack_attrs s true items = pack_attrs s true items'.
+Proof.
+  intros Hp Hn. unfold pack_attrs, sent_items. f_equal. apply sort_items_perm_eq.
+  - apply filter_perm. rewrite (defaults_perm s items items' Hp). apply Permutation_app_tail. exact Hp.
+  - apply nodup_map_filter. apply all_items_nodup. exact Hn.
+Qed.
+
+(* ------------------------------------------------------------------ a route is sent exactly when its UPDATE fits *)
+
+(* the length of the UPDATE (header included) that carries the announce *)
+Definition announce_size (mc v4m : bool) (s : sess) (r : route) : Z :=
+  let n := r_nlri r in
+  let nh := resolve s (n_afi n) (r_nh r) in
+  let packed := pack_nlri (send_pid s n) n in
+  23 + zlen (pack_attrs s true (items_of s r))
+  + (if plain_family mc n && (length nh =? 4)%nat then zlen packed
+     else let nhw := nh_wire v4m (n_afi n) nh in
+          mp_attr_len (zlen (be16 (n_afi n) ++ [n_safi n; rd_size (n_afi n) (n_safi n) + zlen nhw]
+                             ++ repeat 0 (Z.to_nat (rd_size (n_afi n) (n_safi n))) ++ nhw ++ [0] ++ packed))).
+
+Lemma pack_nlri_pos send n : 1 <= zlen (pack_nlri send n).
+Proof.
+  unfold pack_nlri, body. destruct send; [rewrite zlen_app|]; rewrite zlen_cons.
+  - pose proof (zlen_nonneg (match n_pid n with Some b => b | None => [0;0;0;0] end)).
+    pose proof (zlen_nonneg (lbl_bytes (n_labels n) ++ n_rd n ++ pack_ip (n_mask n) (n_pfx n))). lia.
+  - pose proof (zlen_nonneg (lbl_bytes (n_labels n) ++ n_rd n ++ pack_ip (n_mask n) (n_pfx n))). lia.
+Qed.
+
+Theorem announce_sent_iff_fits mc v4m s r :
+  (announce_size mc v4m s r <= s_msg s <-> exists body, encode_announce mc v4m s r = Some body)
+  /\ (forall body, encode_announce mc v4m s r = Some body -> 19 + zlen body = announce_size mc v4m s r).
+Proof.
+  unfold announce_size, encode_announce.
+  set (attr := pack_attrs s true (items_of s r)). set (n := r_nlri r). set (nh := resolve s (n_afi n) (r_nh r)).
+  set (packed := pack_nlri (send_pid s n) n). pose proof (pack_nlri_pos (send_pid s n) n) as Hp. fold packed in Hp.
+  pose proof (zlen_nonneg attr) as Ha.
+  destruct (plain_family mc n && (length nh =? 4)%nat).
+  - destruct (s_msg s - 19 - 2 - 2 - zlen attr <=? 0) eqn:E0; [apply Z.leb_le in E0 | apply Z.leb_gt in E0].
+    + split; [split; [intro; lia | intros [b Hb]; discriminate] | intros b Hb; discriminate].
+    + destruct (zlen packed <=? s_msg s - 19 - 2 - 2 - zlen attr) eqn:E1; [apply Z.leb_le in E1 | apply Z.leb_gt in E1].
+      * split; [split; [intro; eexists; reflexivity | intro; lia]|]. intros b Hb.
+        apply (f_equal (fun o => match o with Some b => zlen b | None => 0 end)) in Hb; cbv beta iota in Hb; rewrite <- Hb.
+        rewrite !zlen_app, !prefix16_len, zlen_nil. lia.
+      * split; [split; [intro; lia | intros [b Hb]; discriminate] | intros b Hb; discriminate].
+  - cbv zeta.
+    set (payload := be16 (n_afi n) ++ [n_safi n; rd_size (n_afi n) (n_safi n) + zlen (nh_wire v4m (n_afi n) nh)]
+                    ++ repeat 0 (Z.to_nat (rd_size (n_afi n) (n_safi n))) ++ nh_wire v4m (n_afi n) nh ++ [0] ++ packed).
+    assert (Hm : 3 <= mp_attr_len (zlen payload)).
+    { unfold mp_attr_len. pose proof (zlen_nonneg payload). destruct (255 <? zlen payload); lia. }
+    destruct (s_msg s - 19 - 2 - 2 - zlen attr <=? 0) eqn:E0; [apply Z.leb_le in E0 | apply Z.leb_gt in E0].
+    + split; [split; [intro; lia | intros [b Hb]; discriminate] | intros b Hb; discriminate].
+    + destruct (s_msg s - 19 - 2 - 2 - zlen attr <? mp_attr_len (zlen payload)) eqn:E1; [apply Z.ltb_lt in E1 | apply Z.ltb_ge in E1].
+      * split; [split; [intro; lia | intros [b Hb]; discriminate] | intros b Hb; discriminate].
+      * split; [split; [intro; eexists; reflexivity | intro; lia]|]. intros b Hb.
+        apply (f_equal (fun o => match o with Some b => zlen b | None => 0 end)) in Hb; cbv beta iota in Hb; rewrite <- Hb.
+        rewrite zlen_app, !prefix16_len, zlen_nil, zlen_app, mp_len. lia.
+Qed.
